@@ -20,8 +20,16 @@ import (
 
 // Interner maps canonical strings to small ids (0 = empty).
 type Interner struct {
-	ids map[string]int
-	Rev []string
+	ids    map[string]int
+	Rev    []string
+	SrcIdx map[*ast.Source]int // source -> index in the exported source list (nil: everything is source 0)
+}
+
+func (in *Interner) src(p *ast.Position) int {
+	if p == nil || in.SrcIdx == nil {
+		return 0
+	}
+	return in.SrcIdx[p.Src]
 }
 
 func NewInterner() *Interner { return &Interner{ids: map[string]int{"": 0}, Rev: []string{""}} }
@@ -142,8 +150,8 @@ func (in *Interner) SelsTerm(ss ast.SelectionSet) string {
 }
 
 func (in *Interner) FragTerm(f *ast.FragmentDefinition) string {
-	return fmt.Sprintf("{| fr_name := %s; fr_on := %s; fr_extra := %d%%N; fr_sel := %s; fr_line := %d%%N |}",
-		coqfmt.Str(f.Name), coqfmt.Str(f.TypeCondition), in.ID(dirsString(f.Directives)), in.SelsTerm(f.SelectionSet), line(f.Position))
+	return fmt.Sprintf("{| fr_name := %s; fr_on := %s; fr_extra := %d%%N; fr_sel := %s; fr_line := %d%%N; fr_src := %d%%nat |}",
+		coqfmt.Str(f.Name), coqfmt.Str(f.TypeCondition), in.ID(dirsString(f.Directives)), in.SelsTerm(f.SelectionSet), line(f.Position), in.src(f.Position))
 }
 
 func OpKind(o ast.Operation) int {
@@ -172,8 +180,12 @@ func VarDefsString(o *ast.OperationDefinition) string {
 }
 
 func (in *Interner) OpTerm(o *ast.OperationDefinition) string {
-	return fmt.Sprintf("{| op_kind := %d%%N; op_name := %s; op_extra := %d%%N; op_sel := %s; op_line := %d%%N |}",
-		OpKind(o.Operation), coqfmt.Str(o.Name), in.ID(VarDefsString(o)), in.SelsTerm(o.SelectionSet), line(o.Position))
+	var vars []string
+	for _, v := range o.VariableDefinitions {
+		vars = append(vars, fmt.Sprintf("{| vd_name := %s; vd_type := %s; vd_line := %d%%N |}", coqfmt.Str(v.Variable), TypeTerm(v.Type), line(v.Position)))
+	}
+	return fmt.Sprintf("{| op_kind := %d%%N; op_name := %s; op_extra := %d%%N; op_sel := %s; op_line := %d%%N; op_src := %d%%nat; op_vars := %s |}",
+		OpKind(o.Operation), coqfmt.Str(o.Name), in.ID(VarDefsString(o)), in.SelsTerm(o.SelectionSet), line(o.Position), in.src(o.Position), coqfmt.List(vars))
 }
 
 func kindTerm(k ast.DefinitionKind) string {
